@@ -263,27 +263,51 @@ def run(src, tier, seed):
 
     ps = registry_undo_rules(fx, res)
 
-    # ---- R4 switch symmetry
-    r = res.rule('global-switch-symmetry', 'TermNames::pushScope and popScope skip under exactly the same predicate (isGlobal())', floor=1)
+    # ---- R4 the scope stack moves on every push and every pop
+    r = res.rule('global-switch-symmetry', 'TermNames::pushScope opens a scope of the name log on every path and popScope closes one on every path; a path that skips the stack operation is '
+                 'accepted only under an option that cannot change after initialisation (SMTConfig::isPreInitializationOption): :global-declarations may be changed between a push and '
+                 'its pop, and a skip that depends on it unbalances the stack', floor=2)
     pu = fx.func('opensmt::TermNames::pushScope')
-
-    def guards(f):
-        g = set()
+    logs = {recv_path(n) for n in fwalk(pu) if n.get('k') == 'call' and mname(n) == 'pushScope'} | {recv_path(n) for n in fwalk(ps) if n.get('k') == 'call' and mname(n) in ('popScope', 'mergeScope')}
+    logs = {l for l in logs if l and l.startswith('this.')}
+    if len(logs) != 1:
+        raise AnalysisBroken('TermNames::pushScope / popScope: the scoped name log was not identified (%s)' % sorted(logs))
+    log = logs.pop()
+    frozen_cfg = fx.func('opensmt::SMTConfig::isPreInitializationOption')
+    frozen = {x.get('n', '').split('::')[-1] for x in fwalk(frozen_cfg) if x.get('k') in ('ref', 'mem') and (x.get('n') or '').split('::')[-1].startswith('o_')}
+    for f, ops, what in ((pu, ('pushScope',), 'opens'), (ps, ('popScope', 'mergeScope'), 'closes')):
+        exits, eng = must_call(f, {'stack': lambda n, ops=ops: n.get('k') == 'call' and mname(n) in ops and recv_path(n) == log})
+        skipping = [nd for k, nd, st in exits if k != 'throw' and 'stack' not in st]
+        if not skipping:
+            res.ok(r, '%s %s a scope of %s on every path' % (f['name'].replace('opensmt::', ''), what, log))
+            continue
+        # which accessor decides the skip, and is its option frozen?
+        deciders = set()
         for n in walk(f['body']):
             if n.get('k') == 'if' and not n.get('as'):
-                c = see_through(n['cond'])
-                neg = False
-                while isinstance(c, dict) and c.get('k') == 'un' and c['op'] == '!':
-                    neg = not neg
-                    c = see_through(c['e'])
-                if isinstance(c, dict) and c.get('k') == 'call':
-                    g.add((mname(c), neg))
-        return g
-    g1, g2 = guards(pu), guards(ps)
-    if g1 == g2 and g1:
-        res.ok(r, 'guards %s' % sorted(g1))
-    else:
-        res.bad(r, 'switch-asymmetry', fx.loc(pu), 'TermNames::pushScope is guarded by %s but popScope by %s: with global declarations the scope log and the stack drift apart' % (sorted(g1), sorted(g2)))
+                for c in [see_through(n['cond'])] + list(walk(n['cond'])):
+                    if isinstance(c, dict) and c.get('k') == 'call' and not c.get('op'):
+                        deciders.add(callee(c))
+        opts = set()
+        for d in deciders:
+            st_, seen_ = [d], set()
+            while st_:
+                g = st_.pop()
+                if g in seen_:
+                    continue
+                seen_.add(g)
+                for gf in fx.funcs(g):
+                    for x in fwalk(gf):
+                        if x.get('k') in ('ref', 'mem') and (x.get('n') or '').split('::')[-1].startswith('o_'):
+                            opts.add(x['n'].split('::')[-1])
+                        if x.get('k') == 'call' and callee(x).startswith('opensmt::') and len(seen_) < 12:
+                            st_.append(callee(x))
+        if opts and opts <= frozen:
+            res.ok(r, '%s skips the stack operation only under frozen option(s) %s' % (f['name'].replace('opensmt::', ''), sorted(opts)))
+        else:
+            res.bad(r, 'switch-asymmetry', fx.loc(f), '%s can return without having moved the scope stack of %s, depending on %s (option(s) %s, which can be changed after initialisation): a push made '
+                    'under one setting and popped under the other closes a scope that was never opened (out-of-bounds access in ScopedVector::popScope) or leaves one open'
+                    % (f['name'].replace('opensmt::', ''), log, sorted(x.replace('opensmt::', '') for x in deciders) or 'an unidentified condition', sorted(opts) or '?'))
 
     # ---- R5 who writes the maps
     r = res.rule('single-writer', 'nameToTerm/termToNames are written only by TermNames::tryInsert/eraseTermName; the deprecated mutable getTermNames() has no caller', floor=2)
